@@ -477,6 +477,7 @@ int main(void) {
     if (curp) { FILE *c = fopen(curp, "w"); if (c) { fprintf(c, "%d %llu\n", idx, (unsigned long long)seed); fclose(c); } }
     keep_log = nsample < 2; replay_mode = 0;
     run_once(seed);
+    if (getenv("VERIF_HASHLOG")) { FILE *h = fopen(getenv("VERIF_HASHLOG"), "a"); if (h) { fprintf(h, "%d %llu %016llx %d %d %s\n", idx, (unsigned long long)seed, (unsigned long long)loghash, nlog, tape_pos, have_viol ? viol_sig : ""); fclose(h); } }
     runs++; tsteps += steps; tsim += now_us;
     if (fault_free) c_faultfree++;
     if (eintr_budget == 0 && !fault_free) c_eintr++;
